@@ -420,6 +420,7 @@ Record obs := mkObs {
   o_st : list status;            (* Task.Status of every task *)
   o_wd : list status;            (* Task.WaitedStatus of every task (never set: Hold) *)
   o_run : list nat;              (* ids with a live tomb, ascending *)
+  o_dying : list nat;            (* ids whose tomb has been killed (tomb.Err() != ErrStillAlive), ascending *)
   o_ready : bool;                (* Change.IsReady *)
   o_cst : status;                (* Change.Status *)
   o_rt : bool;                   (* !Change.ReadyTime().IsZero() *)
@@ -450,9 +451,9 @@ Definition status_of_code (c : N) : status :=
 Definition dec_sts (n : N) : list status := map status_of_code (tl (digits 60 n [])).
 Definition dec_set (n : N) : list nat := filter (fun i => N.testbit n (N.of_nat i)) (seq 0 64).
 Definition SR (t : N) (u : bool) (pre : N) (g fresh : bool) : start_rec := mkSR (N.to_nat t) u (dec_sts pre) g fresh.
-Definition OB (sts wds : N) (run : N) (rdy : bool) (cst : status) (rt : bool) (err failed : N)
+Definition OB (sts wds : N) (run dying : N) (rdy : bool) (cst : status) (rt : bool) (err failed : N)
               (pnc : bool) (starts : list start_rec) (hook : bool) : obs :=
-  mkObs (dec_sts sts) (dec_sts wds) (dec_set run) rdy cst rt (dec_set err) (dec_set failed) pnc starts hook.
+  mkObs (dec_sts sts) (dec_sts wds) (dec_set run) (dec_set dying) rdy cst rt (dec_set err) (dec_set failed) pnc starts hook.
 Definition EEnsure (n : N) : event := Ensure (seq 0 (N.to_nat n)).
 Definition EFinish (t : N) (o : outcome) : event := Finish (N.to_nat t) o.
 Definition EResolve (t : N) : event := Resolve (N.to_nat t).
@@ -504,13 +505,36 @@ Definition obs_mismatch (before after : state) (o : obs) : bool :=
   || negb (list_eqb rec_eqb (new_starts before after) (o_starts o))
   || oof after.
 
-Fixpoint replay_mismatch (s : state) (evs : list (event * obs)) : bool :=
-  match evs with
-  | [] => false
-  | (e, o) :: r => let s' := step_case s e in obs_mismatch s s' o || replay_mismatch s' r
+(* which tombs are dying after an event. TaskRunner.abortLanes (error path of run) kills the tombs of the tasks that are
+   in Abort after the lane abort, and only those; Ensure kills the tomb of every task it finds in Abort with a tomb;
+   Change.Abort kills nothing (the next Ensure does); a finished handler's tomb is gone. *)
+Definition abort_running (s : state) : list nat := filter (fun t => seqb (st s t) Abort) (running s).
+Definition dying_after (before after : state) (dy : list nat) (e : event) : list nat :=
+  match e with
+  | Ensure _ => dy ++ abort_running before
+  | Finish t o =>
+    let dy' := filter (fun x => negb (Nat.eqb x t)) dy in
+    if memn t (running before)
+    then match o with OErr => dy' ++ abort_running after | _ => dy' end
+    else dy
+  | _ => dy
+  end.
+Fixpoint dedup_sorted (l : list nat) : list nat :=
+  match l with
+  | x :: ((y :: _) as r) => if Nat.eqb x y then dedup_sorted r else x :: dedup_sorted r
+  | _ => l
   end.
 
-Definition mismatch (c : case) : bool := let 'Case g evs := c in replay_mismatch (init_state g) evs.
+Fixpoint replay_mismatch (s : state) (dy : list nat) (evs : list (event * obs)) : bool :=
+  match evs with
+  | [] => false
+  | (e, o) :: r =>
+    let s' := step_case s e in
+    let dy' := dedup_sorted (sort_nat (dying_after s s' dy e)) in
+    obs_mismatch s s' o || negb (list_eqb Nat.eqb dy' (o_dying o)) || replay_mismatch s' dy' r
+  end.
+
+Definition mismatch (c : case) : bool := let 'Case g evs := c in replay_mismatch (init_state g) [] evs.
 
 (* ------------------------------------------------------------------ monitors: the properties evaluated on the
    implementation's observed behaviour only (no model function of the engine is used below) *)
@@ -724,7 +748,10 @@ Definition monitor_fail01 (c : case) : bool :=
                    forallb (fun r : start_rec => if sr_undo r && sr_fresh r then forallb ready (sr_pre r) else true)
                            (o_starts (snd eo))) evs)
   || negb (abort_scan g (map (fun _ => Do) g) (map (fun _ => Do) g) evs)
-  || negb (settle_ok g evs).
+  || negb (settle_ok g evs)
+  (* a handler is only ever stopped (its tomb killed) when its task has been moved to Abort: handlers of tasks in
+     healthy lanes never see a dying tomb and are left to complete *)
+  || negb (forallb (fun eo : event * obs => forallb (fun t => seqb (nth t (o_st (snd eo)) Hold) Abort) (o_dying (snd eo))) evs).
 
 (* C03: the reported change status is the documented aggregate of the task statuses (independent statement
    below), IsReady <-> ready time set, once ready never again unready and the status stays ready, the change is
